@@ -1,4 +1,6 @@
 SPECIFICATION Spec
 INVARIANT PlantedRecovered
+INVARIANT PlantedFirst
+INVARIANT DarkLast
 INVARIANT EmitInv
 CHECK_DEADLOCK FALSE
